@@ -16,5 +16,6 @@ MC_RandChoices == {1}
 MC_Msgs == {<<>>, <<104,105>>}
 MC_MaxExtra == 1
 MC_EMIT == TRUE
+MC_ListOrders == {"asc"}
 
 ====
